@@ -567,6 +567,64 @@ pub fn run(opts: &Opts, out: &mut Emitter, prop: &str) {
             out.case("mint-stress-random", || case(&t, false, true));
         }
     }
+    // a policy whose mints and burns cancel exactly, guarded by a redeemer, next to a policy that is really minted
+    // (sorting before or after it): the cancelled policy is not in the body, its redeemer has nothing to point at
+    for (gone, live) in [(0u8, 1u8), (1, 0), (2, 1), (0, 2)] {
+        for guard in 0..3 {
+            for live_guarded in [false, true] {
+                let mut t = empty_tx();
+                t.fees = ada(1);
+                let entry = |p: u8, n: i128| E::Assets(vec![tir::AssetExpr { policy: E::Bytes(policy(p)), asset_name: E::Bytes(b"TK".to_vec()), amount: E::Number(n) }]);
+                let unit = E::Struct(tir::StructExpr { constructor: 0, fields: vec![] });
+                t.mints.push(tir::Mint { amount: entry(gone, 5), redeemer: if guard != 1 { E::Number(7) } else { E::None } });
+                t.burns.push(tir::Mint { amount: entry(gone, 5), redeemer: if guard != 0 { E::Number(7) } else { E::None } });
+                t.mints.push(tir::Mint { amount: entry(live, 3), redeemer: if live_guarded { unit.clone() } else { E::None } });
+                out.case("mint-cancelled-guarded", || case(&t, false, true));
+            }
+        }
+    }
+    // optional outputs next to a plain one: every kind of amount an output can be asked to hold - fine, empty
+    // (the output vanishes), and beyond what the ledger field holds (the compilation fails, whether or not the
+    // output is optional), as one entry, as two entries of one class, as lovelace, as a token
+    {
+        let two64: i128 = 1 << 64;
+        let amounts: Vec<(&str, Vec<(bool, i128)>)> = vec![
+            ("fine", vec![(true, 2_000_000), (false, 7)]),
+            ("empty", vec![(true, 0)]),
+            ("empty-token", vec![(false, 0)]),
+            ("token-max", vec![(true, 2_000_000), (false, two64 - 1)]),
+            ("token-2^64", vec![(true, 2_000_000), (false, two64)]),
+            ("token-2^64+20", vec![(false, two64 + 20)]),
+            ("token-i128-max", vec![(true, 1), (false, i128::MAX)]),
+            ("token-sum-2^64", vec![(false, 1 << 63), (false, 1 << 63)]),
+            ("token-sum-fits", vec![(false, (1 << 63) - 1), (false, 1 << 63)]),
+            ("lovelace-max", vec![(true, two64 - 1)]),
+            ("lovelace-sum-2^64", vec![(true, 1 << 63), (true, 1 << 63)]),
+        ];
+        for (name, entries) in amounts.iter() {
+            for optional in [true, false] {
+                for first in [true, false] {
+                    let mut t = empty_tx();
+                    t.fees = ada(1);
+                    let plain = tir::Output { address: E::Address(ADDR_A.to_vec()), datum: E::None, amount: ada(1_500_000), optional: false };
+                    let v: Vec<tir::AssetExpr> = entries
+                        .iter()
+                        .map(|(lovelace, n)| {
+                            if *lovelace {
+                                tir::AssetExpr { policy: E::None, asset_name: E::None, amount: E::Number(*n) }
+                            } else {
+                                tir::AssetExpr { policy: E::Bytes(policy(1)), asset_name: E::Bytes(b"TK".to_vec()), amount: E::Number(*n) }
+                            }
+                        })
+                        .collect();
+                    let special = tir::Output { address: E::Address(ADDR_A.to_vec()), datum: E::None, amount: E::Assets(v), optional };
+                    t.outputs = if first { vec![special, plain] } else { vec![plain, special] };
+                    let gen = format!("output-amounts:{name}");
+                    out.case(&gen, || case(&t, false, true));
+                }
+            }
+        }
+    }
     for k in 0..opts.n {
         g.boundary = match prop {
             "C02" | "C14" => k % 2 == 0,
